@@ -82,6 +82,7 @@ static void do_parse(const char *text, int flags, int len_override)
 	struct probe p;
 	take_probe(&p);
 	MC_COUNT("calls", 1);
+	errno = mc_errno_pre;
 	struct json_object *o = json_tokener_parse_ex(tok, text, len_override ? len_override : (int)strlen(text) + 1);
 	compare_probe(&p, "json_tokener_parse_ex");
 	sb_reset(&out);
@@ -111,6 +112,7 @@ static void do_serialize(double d)
 	for (int i = 0; i < 3; i++)
 	{
 		MC_COUNT("calls", 1);
+		errno = mc_errno_pre;
 		const char *t = json_object_to_json_string_ext(a, fl[i]);
 		sb_puts(&out, t ? t : "(null)");
 		sb_putc(&out, '|');
@@ -311,6 +313,7 @@ static void enumerate(void)
 						take_probe(&p);
 						long c0 = vf_alloc_calls();
 						vf_fail_plan(c0 + f, 0);
+						errno = mc_errno_pre;
 						struct json_object *o = json_tokener_parse_ex(tok, OUTCOMES[k], -1);
 						int fired = vf_fail_fired();
 						vf_fail_plan(0, 0);
